@@ -1628,11 +1628,17 @@ func addSegStatsStrIngestion(segstats map[string]*SegStats, cname string, valByt
 		segstats[cname] = stats
 	}
 
-	floatVal, err := utils.FastParseFloat(valBytes)
-	if err == nil {
-		stats.IsNumeric = true
-		addSegStatsNums(segstats, cname, SS_FLOAT64, 0, 0, floatVal, valBytes)
-		return
+	// FastParseFloat is only a cheap filter here: it accepts "-", "+", "." and
+	// "e5" as 0 and is not correctly rounded ("1.36" comes out one ulp low). The
+	// decision and the value come from strconv, as at query time
+	// (stats.AddSegStatsStr), so that both paths agree.
+	if _, err := utils.FastParseFloat(valBytes); err == nil {
+		floatVal, err := strconv.ParseFloat(utils.UnsafeByteSliceToString(valBytes), 64)
+		if err == nil {
+			stats.IsNumeric = true
+			addSegStatsNums(segstats, cname, SS_FLOAT64, 0, 0, floatVal, valBytes)
+			return
+		}
 	}
 
 	UpdateMinMax(stats, sutils.CValueEnclosure{
